@@ -16,14 +16,6 @@ EXTENDS OrchestraProps, Json, IOUtils, TLCExt
 
 Traces == JsonDeserialize(IOEnv.TRACE_FILE)
 
-RangeOf(q) == {q[i] : i \in 1..Len(q)}
-CfgOf(J) ==
-  [ n |-> J.n, pure |-> J.pure, kind |-> J.kind, parent |-> J.parent,
-    req |-> [i \in 1..J.n |-> RangeOf(J.req[i])],
-    crit |-> J.crit, forever |-> J.forever, win |-> J.win, tmo |-> J.tmo,
-    stmo |-> J.stmo, dur |-> J.dur, out |-> J.out, sdur |-> J.sdur,
-    cdur |-> J.cdur, horizon |-> J.horizon ]
-
 VARIABLES tid, l, marks
 tvars == <<cfg, S, tid, l, marks>>
 
